@@ -9,5 +9,7 @@ INVARIANT InvStk
 INVARIANT Inv06
 INVARIANT Inv08
 INVARIANT Inv09
+INVARIANT Inv07
+INVARIANT Inv20
 PROPERTY Step01
 CHECK_DEADLOCK FALSE
